@@ -181,8 +181,10 @@ def session_asgi(falcon, testing, script, exhaust, ds, body, rng):
             return {'type': 'http.request', 'body': chunks[i], 'more_body': i + 1 < len(chunks)}
         return {'type': 'http.disconnect'}
 
-    scope = testing.create_scope(method='POST', headers={'Content-Type': 'application/x-test',
-                                                         'Content-Length': str(len(body))})
+    hdrs = {'Content-Type': 'application/x-test', 'Content-Length': str(len(body))}
+    if rng.random() < 0.4:      # chunked / HTTP/2 style upload: no Content-Length
+        del hdrs['Content-Length']
+    scope = testing.create_scope(method='POST', headers=hdrs)
     opts = falcon.RequestOptions()
     opts.media_handlers['application/x-test'] = h
     req = falcon.asgi.Request(scope, receive, options=opts)
@@ -1461,6 +1463,171 @@ def form_expected(m):
     return exp
 
 
+# ------------------------------------------------------------------ Content-Length variants
+
+def real_get_media(falcon, testing, kind, ctype, body_chunks, cl, rng=None):
+    """One get_media() on a real request whose Content-Length header is absent (cl None) or cl, and
+    whose body is body_chunks (ASGI: one http.request event per chunk; WSGI: wsgi.input holds the
+    concatenation)."""
+    import falcon.asgi
+    headers = {'Content-Type': ctype}
+    if cl is not None:
+        headers['Content-Length'] = str(cl)
+    body = b''.join(body_chunks)
+    if kind == 'wsgi':
+        env = testing.create_environ(method='POST', headers=headers)
+        if cl is None:
+            env.pop('CONTENT_LENGTH', None)
+        env['wsgi.input'] = CountingInput(body)
+        req = falcon.Request(env)
+        call = req.get_media
+    else:
+        st = {'i': 0}
+
+        async def receive():
+            i = st['i']
+            if i < len(body_chunks):
+                st['i'] += 1
+                return {'type': 'http.request', 'body': body_chunks[i], 'more_body': i + 1 < len(body_chunks)}
+            return {'type': 'http.disconnect'}
+        scope = testing.create_scope(method='POST', headers=headers)
+        req = falcon.asgi.Request(scope, receive)
+        assert (req.content_length is None) == (cl is None)
+
+        def call():
+            async def go():
+                return await req.get_media()
+            return run_coro(go())
+    try:
+        return ('ok', call())
+    except falcon.MediaNotFoundError:
+        return ('nf',)
+    except falcon.MediaMalformedError:
+        return ('mal',)
+    except BaseException as e:  # noqa
+        return ('other', type(e).__name__ + ': ' + str(e)[:80])
+
+
+def check_content_length(ctx, falcon, testing, model):
+    """The media round trip and the handler outcomes for requests WITHOUT Content-Length (ASGI: chunked /
+    HTTP/2 style uploads, the body arrives in 1..n events; WSGI: falcon treats wsgi.input as empty), with
+    Content-Length: 0 and a body present, and with Content-Length larger / smaller than the body.  The model
+    (Model.offered_wsgi / offered_asgi, C12_offered_*_is_C07_declared) says what the stream hands to the
+    handler; binding: whenever the whole body is offered the document must round-trip."""
+    import asyncio
+    import falcon.asgi
+    rng = ctx.rng
+    n = 300 if ctx.tier == 'quick' else 3000
+    jh = falcon.media.JSONHandler()
+    fh = falcon.media.URLEncodedFormHandler()
+    cases, meta = [], []
+    for i in range(n):
+        form = rng.random() < 0.25
+        if form:
+            doc = {rng.choice(['a', 'é', 'k k', '&', 'q']): rng.choice(['1', 'é€', 'a b', '+%', ['x', 'y', ',']])
+                   for _ in range(rng.randint(1, 3))}
+            body = fh.serialize(doc, 'application/x-www-form-urlencoded')
+            ctype = 'application/x-www-form-urlencoded'
+        else:
+            doc = gen_ffdoc(rng, maxdepth=rng.choice([1, 2, 3]))
+            body = jh.serialize(doc, 'application/json')
+            ctype = rng.choice(['application/json', 'application/json; charset=utf-8'])
+        L = len(body)
+        for kind in ('wsgi', 'asgi'):
+            for cl in [None, 0, L, L + rng.randint(1, 9)] + ([rng.randrange(0, L)] if L > 0 else []):
+                chunks = chunked(rng, body) if kind == 'asgi' else [body]
+                if kind == 'asgi' and rng.random() < 0.2:
+                    chunks.insert(rng.randrange(len(chunks) + 1), b'')
+                r = real_get_media(falcon, testing, kind, ctype, chunks, cl)
+                cases.append([23 if form else 22, kind == 'wsgi', [] if cl is None else [cl], chunks])
+                meta.append((form, doc, body, kind, cl, chunks, ctype, r))
+    outs = model.run_many(cases)
+    for (form, doc, body, kind, cl, chunks, ctype, r), o in zip(meta, outs):
+        L = len(body)
+        shape = 'no-content-length' if cl is None else 'cl-0' if cl == 0 and L > 0 else 'cl-exact' if cl == L else \
+            'cl-larger' if cl > L else 'cl-smaller'
+        ctx.count('content-length-%s-%s' % (kind, shape))
+        ctx.note_case(('cl', kind, shape, body[:100], len(chunks)), shape != 'cl-exact')
+        whole = (kind == 'asgi' and (cl is None or cl >= L)) or (kind == 'wsgi' and cl is not None and cl >= L)
+        detail = {'interface': kind, 'content_type': ctype, 'content_length_header': cl, 'body': repr(body[:300]),
+                  'body_len': L, 'events': [len(c) for c in chunks], 'doc': repr(doc)[:300], 'get_media': repr(r)[:300],
+                  'model(0=value,1=not-found,2=malformed,9=not modelled)': repr(o)[:300]}
+        if r[0] == 'other':
+            ctx.violation('json-undecodable-not-400', dict(detail, error=r[1]), key='cl-500')
+            continue
+        if whole and L > 0:
+            # binding: the document round-trips for every chunking, with the length declared, over-declared or
+            # (ASGI) not declared (C12_json_roundtrip_any_chunking / C12_json_roundtrip_wsgi / C12_form_roundtrip)
+            exp = form_expected(doc) if form else doc
+            if r[0] != 'ok' or canon(r[1]) != canon(exp):
+                ctx.violation('form-roundtrip' if form else 'json-roundtrip',
+                              dict(detail, what='the whole body is offered to the handler (%s) but get_media does not '
+                                                'return the document' % shape), key='cl-rt-%s-%s' % (kind, shape))
+                continue
+        # correspondence with the model of what the stream offers
+        if form:
+            good = (o[0] == 0 and r[0] == 'ok' and wmapping(o[1]) == list(r[1].items())) or (o[0] == 2 and r[0] == 'mal') \
+                or o[0] == 9
+        elif r[0] == 'ok':
+            good = o[0] == 0 and wj(o[1]) == ocanon(r[1])
+        else:
+            good = o[0] == {'nf': 1, 'mal': 2}[r[0]]
+        if not good:
+            ctx.violation('correspondence-broken', dict(detail, broken='C12.offered_body_corr (what the stream hands to the handler '
+                                                                       'for this Content-Length)'), found_input=False,
+                          key='cl-corr-%s-%s' % (kind, shape))
+
+    # end to end on the ASGI app: a chunked upload without Content-Length, echoed back
+    holder = {}
+
+    class AR:
+        async def on_post(self, req, resp):
+            holder['got'] = await req.get_media()
+            holder['again'] = (await req.get_media()) is holder['got']
+            resp.media = holder['got']
+
+    aapp = falcon.asgi.App()
+    aapp.add_route('/', AR())
+    for i in range(60 if ctx.tier == 'quick' else 600):
+        doc = gen_ffdoc(rng, maxdepth=2)
+        while doc is None:
+            doc = gen_ffdoc(rng, maxdepth=2)
+        body = jh.serialize(doc, 'application/json')
+        chunks = chunked(rng, body)
+        st = {'i': 0}
+        sent = []
+
+        async def receive():
+            i = st['i']
+            if i < len(chunks):
+                st['i'] += 1
+                return {'type': 'http.request', 'body': chunks[i], 'more_body': i + 1 < len(chunks)}
+            await asyncio.sleep(3600)
+
+        async def send(ev):
+            sent.append(ev)
+        scope = testing.create_scope(method='POST', headers={'Content-Type': 'application/json'})
+        holder.clear()
+
+        async def drive():
+            await asyncio.wait_for(aapp(scope, receive, send), 30)
+        asyncio.run(drive())
+        status = next((e['status'] for e in sent if e['type'] == 'http.response.start'), None)
+        out = b''.join(e.get('body', b'') for e in sent if e['type'] == 'http.response.body')
+        ctx.count('content-length-e2e-asgi-chunked-upload')
+        ctx.note_case(('cl-e2e', i), len(chunks) > 1)
+        try:
+            echoed = json.loads(out.decode())
+        except ValueError:
+            echoed = None
+        if status != 200 or 'got' not in holder or canon(holder['got']) != canon(doc) or not holder['again'] \
+                or canon(echoed) != canon(doc):
+            ctx.violation('e2e-roundtrip', {'interface': 'asgi', 'what': 'chunked upload without Content-Length: the document posted '
+                                            'is not the request media', 'doc': repr(doc)[:300], 'events': [len(c) for c in chunks],
+                                            'status': status, 'got': repr(holder.get('got'))[:300], 'response_body': repr(out[:300])},
+                          key='cl-e2e')
+
+
 def check_e2e_reassign(ctx, falcon, testing):
     """Through real WSGI and ASGI apps with the real JSON handler: the body is rendered early (by the
     responder itself or by a middleware's process_response), the document is amended IN PLACE, and then
@@ -1567,4 +1734,5 @@ def main(ctx):
     check_response(ctx, falcon, model)
     check_e2e(ctx, falcon, testing)
     check_e2e_reassign(ctx, falcon, testing)
+    check_content_length(ctx, falcon, testing, model)
     check_codec(ctx, falcon, model)
